@@ -19,12 +19,12 @@ func init() {
 		Meta: report.Meta{
 			Property: "C10",
 			Rule: "stateless exploration of ALL interleavings (no preemption bound) of the real runner code (runner.go / command_storer.go rewritten so that every go statement, channel send, select and time.Sleep is a scheduling point of a cooperative scheduler; virtual clock) for scripts L0 <<c1 7 true>> <<set $k += 1>> L1 <<c2>> <<set $k += 1>> L2 with one or two commands; " +
-				"each command gets a handler shape from {raw AddCommand with a channel already holding nil / an error; raw with the channel completed later by a completer thread (send nil, send error, close); converted func(..), func(..) error (nil / error), func(..) <-chan error, func(..) chan error; built-in wait 0 / 0.5 / 1 / 1.5; unregistered name}, asynchronous handlers ungated or gated (a gate that only the host opens after p in 0..2 polls); " +
+				"each command gets a handler shape from {raw AddCommand with a channel already holding nil / an error; raw with the channel completed later by a completer thread (send nil, send error, close; buffered, and unbuffered with the sender parked in its send until a poll takes the value); converted func(..), func(..) error (nil / error), func(..) <-chan error, func(..) chan error; built-in wait 0 / 0.5 / 1 / 1.5; unregistered name}, asynchronous handlers ungated or gated (a gate that only the host opens after p in 0..2 polls); " +
 				"the host thread performs up to 8 Next calls and, for wait, advances the virtual clock by steps from {n/2, n/2-1ns, 1ns}; oracle per execution: no Next ever blocks (host stuck inside the API with no enabled thread), no panic; the results follow L0 W* [E]? L1(k=1) W* [E]? L2(k=2) end with W = ErrWaitingForCommandCompletion exactly while completion cannot have been reported, E exactly once iff the command reports an error, " +
 				"no W once completion has been reported and every other thread is quiet; every executed command statement invokes its handler exactly once with (7, true); wait n never completes at a virtual time below n seconds after it started; plus a free-running -race pass over the same shapes; " +
 				"a case is one complete schedule; non-trivial = schedule with at least one poll answered by ErrWaitingForCommandCompletion",
 			StatesMean:  "distinct complete schedules (executions) of the rewritten code; transitions = scheduling points granted",
-			Assumptions: []string{"sequentially consistent executions at the granularity of the hooked operations; unsynchronised accesses between hooks are the subject of the separate -race pass", "handlers communicate through buffered channels or close (unbuffered rendezvous is not modelled)", "the rewriting rules are syntactic and local (cmd/vrewrite); the rewritten package is the code that runs"},
+			Assumptions: []string{"sequentially consistent executions at the granularity of the hooked operations; unsynchronised accesses between hooks are the subject of the separate -race pass", "unbuffered channels are modelled as a rendezvous between a parked sender and the polling select", "the rewriting rules are syntactic and local (cmd/vrewrite); the rewritten package is the code that runs"},
 		},
 		QuickBudget: 75 * time.Second, ThoroughBudget: 14 * time.Minute, CrashIsViolation: true, ProcsPerWorker: 1, RacePass: true,
 		Run: runC10,
@@ -56,6 +56,9 @@ var c10Shapes = []c10Shape{
 	{name: "wait-1", async: true, wait: 1},
 	{name: "wait-1.5", async: true, wait: 1.5},
 	{name: "unregistered", fails: true, unreg: true, wait: -1},
+	{name: "raw-unbuffered-later-nil", async: true, gatable: true, wait: -1},
+	{name: "raw-unbuffered-later-error", async: true, gatable: true, fails: true, wait: -1},
+	{name: "converted-unbuffered-chan-later", async: true, gatable: true, wait: -1},
 }
 
 var errC10 = errors.New("handler reports failure")
@@ -124,6 +127,33 @@ func (cmd *c10Cmd) install(dr *ysgo.DialogueRunner, name string) {
 					vsched.Close(ch)
 				}
 			})
+		})
+	case "raw-unbuffered-later-nil", "raw-unbuffered-later-error":
+		// the common idiom: ch := make(chan error); go func() { work(); ch <- err }()
+		dr.AddCommand(name, func(args []*variable.Value) <-chan error {
+			cmd.invoked++
+			cmd.argsOK = rawArgsOK(args)
+			ch := make(chan error)
+			vsched.Go(func() {
+				wait()
+				if cmd.shape.fails {
+					vsched.Send(ch, errC10)
+				} else {
+					vsched.Send(ch, nil)
+				}
+			})
+			return ch
+		})
+	case "converted-unbuffered-chan-later":
+		dr.ConvertAndAddCommand(name, func(i int, b bool) chan error {
+			cmd.invoked++
+			cmd.argsOK = i == 7 && b
+			ch := make(chan error)
+			vsched.Go(func() {
+				wait()
+				vsched.Send(ch, nil)
+			})
+			return ch
 		})
 	case "converted-no-result":
 		dr.ConvertAndAddCommand(name, func(i int, b bool) {
@@ -333,7 +363,7 @@ func runC10(ctx *report.Ctx) {
 	maxCalls := 8
 	ctx.Bound("next_calls_per_execution", maxCalls)
 	ctx.Bound("preemption_bound", "none (all interleavings)")
-	second := []int{-1, 5, 7, 3, 12} // none, converted-no-result, converted-error-err, raw-later-error, wait-1
+	second := []int{-1, 5, 7, 3, 12, 16} // none, converted-no-result, converted-error-err, raw-later-error, wait-1, raw-unbuffered-later-error
 	if ctx.Quick() {
 		second = []int{-1, 5, 3}
 	}
